@@ -4,7 +4,14 @@ Case line formats: see /verif/ocaml/drv_wire.ml.  The encoder here is the third 
 Go probe, this); the checks compare all three byte for byte on the valid stream."""
 import struct
 
-PATTERNS = ["", "^a", "b$", ".*", "^$", "^(a|b)", "x"]
+# index 0: the list's key is absent; 1..6: a pattern; 7: the key is present with the empty string (config/burrow.toml ships
+# group-allowlist=""), which means "no list" exactly like an absent key
+PATTERNS = ["", "^a", "b$", ".*", "^$", "^(a|b)", "x", ""]
+EMPTY = 7
+
+
+def is_set(idx):
+    return idx not in (0, EMPTY)
 I16 = (-2**15, 2**15 - 1)
 I32 = (-2**31, 2**31 - 1)
 I64 = (-2**63, 2**63 - 1)
@@ -31,7 +38,7 @@ def pat_match(idx, g):
 
 
 def accept(allow, deny, g):
-    return (allow == 0 or pat_match(allow, g)) and not (deny != 0 and pat_match(deny, g))
+    return (not is_set(allow) or pat_match(allow, g)) and not (is_set(deny) and pat_match(deny, g))
 
 
 # ---------------------------------------------------------------------------------------------
@@ -184,20 +191,21 @@ def tok(s):
 # The consumer module's own name and the cluster it is configured for: different strings in most cases (a request must name
 # the cluster, never the module), equal in some (as in every fixture of the unit tests).
 CFGS = [(b"rdr", b"test"), (b"kafka-reader", b"east"), (b"test", b"c2"), (b"east", b"test"), (b"test", b"test"), (b"c2", b"c2")]
-DEFAULT_CFG = CFGS[0]
+DEFAULT_CFG = CFGS[0] + ("S",)
 
 
 def rnd_cfg(rng):
-    return rng.choice(CFGS)
+    """(module name, cluster, mode): mode S = configured with viper.Set, T = from a TOML document (viper.ReadConfig)."""
+    return rng.choice(CFGS) + ("T" if rng.random() < 0.35 else "S",)
 
 
 def line_msg(allow, deny, order, key, value, cfg=DEFAULT_CFG):
-    return "msg %s %s %d %d %d %s %s" % (hx(cfg[0]), hx(cfg[1]), allow, deny, order, hx(key), hx(value))
+    return "msg %s %s %s %d %d %d %s %s" % (hx(cfg[0]), hx(cfg[1]), cfg[2], allow, deny, order, hx(key), hx(value))
 
 
 def line_vo(allow, deny, order, f, cfg=DEFAULT_CFG):
-    return "vo %s %s %d %d %d %d %s %s %d %s %d %d %s %d %d" % (
-        hx(cfg[0]), hx(cfg[1]), allow, deny, order, f["keyver"], tok(f["group"]), tok(f["topic"]), f["partition"], f["valver"],
+    return "vo %s %s %s %d %d %d %d %s %s %d %s %d %d %s %d %d" % (
+        hx(cfg[0]), hx(cfg[1]), cfg[2], allow, deny, order, f["keyver"], tok(f["group"]), tok(f["topic"]), f["partition"], f["valver"],
         f["offset"], f["epoch"], tok(f["metadata"]), f["ts"], f["expire"])
 
 
@@ -214,7 +222,7 @@ def fmt_assignment(a):
 
 
 def line_vm(allow, deny, order, f, cfg=DEFAULT_CFG):
-    out = ["vm", hx(cfg[0]), hx(cfg[1]), str(allow), str(deny), str(order), tok(f["group"]), str(f["valver"]), tok(f["ptype"]),
+    out = ["vm", hx(cfg[0]), hx(cfg[1]), cfg[2], str(allow), str(deny), str(order), tok(f["group"]), str(f["valver"]), tok(f["ptype"]),
            str(f["generation"]), tok(f["protocol"]), tok(f["leader"]), str(f["statets"]), str(len(f["members"]))]
     for m in f["members"]:
         out += [tok(m["id"]), tok(m["instance"]), tok(m["clientid"]), tok(m["host"]), str(m["rebalance"]),
@@ -374,13 +382,19 @@ def clampi(v, rngpair):
 
 def rnd_lists(rng):
     r = rng.random()
-    if r < 0.55:
+    if r < 0.45:
         return 0, 0
-    if r < 0.75:
-        return rng.randrange(1, len(PATTERNS)), 0
+    if r < 0.55:
+        # only empty lists: the key is there, its value is "" - no list at all
+        return rng.choice([(EMPTY, 0), (0, EMPTY), (EMPTY, EMPTY)])
+    if r < 0.63:
+        # an empty list next to a real pattern on the other list
+        return rng.choice([(EMPTY, rng.randrange(1, EMPTY)), (rng.randrange(1, EMPTY), EMPTY)])
+    if r < 0.78:
+        return rng.randrange(1, EMPTY), 0
     if r < 0.9:
-        return 0, rng.randrange(1, len(PATTERNS))
-    return rng.randrange(1, len(PATTERNS)), rng.randrange(1, len(PATTERNS))
+        return 0, rng.randrange(1, EMPTY)
+    return rng.randrange(1, EMPTY), rng.randrange(1, EMPTY)
 
 
 def gen_offset_fields(rng, valver=None):
@@ -483,7 +497,12 @@ def gen_valid(rng, cfg=None, lists=None, unique=None):
             tags.append("other-protocol")
         line = line_vm(allow, deny, order, f, cfg)
         g = sval(f["group"])
-    tags.append("lists:%s" % ("none" if (allow, deny) == (0, 0) else ("accept" if accept(allow, deny, g) else "reject")))
+    tags.append("lists:%s" % ("none" if (allow, deny) == (0, 0) else
+                              ("only-empty-strings" if not is_set(allow) and not is_set(deny) else
+                               ("accept" if accept(allow, deny, g) else "reject"))))
+    if EMPTY in (allow, deny):
+        tags.append("lists:empty-string-setting")
+    tags.append("config:%s" % ("toml-document" if cfg[2] == "T" else "viper.Set"))
     tags.append("module-name:%s" % ("same-as-cluster" if cfg[0] == cfg[1] else "differs-from-cluster"))
     return line, tags, fmt_expected(exp), key, value
 
@@ -763,7 +782,7 @@ def c10_message(rng, kind, g):
 
 
 def gen_c10(rng, n_random):
-    """[(line, tags, group)]: every pattern pair (49) x the four match classes (a group from the pool that is in the class,
+    """[(line, tags, group)]: every pair of list settings (unset, six patterns, empty string: 64) x the four match classes (a group from the pool that is in the class,
     where one exists) x three message kinds, then n_random random combinations."""
     out = []
     npat = len(PATTERNS)
@@ -772,20 +791,22 @@ def gen_c10(rng, n_random):
         key, value = c10_message(rng, kind, g)
         order = rnd_int(rng, I64)
         cfg = rnd_cfg(rng)
-        line = "c10 %s %s %d %d %d %s %s %s" % (hx(cfg[0]), hx(cfg[1]), allow, deny, order, hx(g), hx(key), hx(value))
-        am = pat_match(allow, g) if allow else False
-        dm = pat_match(deny, g) if deny else False
-        cls = "allow:%s/deny:%s" % (("unset" if not allow else ("match" if am else "nomatch")),
-                                    ("unset" if not deny else ("match" if dm else "nomatch")))
-        return line, ["kind:" + kind, cls, "verdict:" + ("accept" if accept(allow, deny, g) else "reject")], g
+        line = "c10 %s %s %s %d %d %d %s %s %s" % (hx(cfg[0]), hx(cfg[1]), cfg[2], allow, deny, order, hx(g), hx(key), hx(value))
+        am = pat_match(allow, g) if is_set(allow) else False
+        dm = pat_match(deny, g) if is_set(deny) else False
+        word = lambda idx, m: "unset" if idx == 0 else ("empty-string" if idx == EMPTY else ("match" if m else "nomatch"))
+        cls = "allow:%s/deny:%s" % (word(allow, am), word(deny, dm))
+        return line, ["kind:" + kind, cls, "verdict:" + ("accept" if accept(allow, deny, g) else "reject"),
+                      "config:" + ("toml-document" if cfg[2] == "T" else "viper.Set")], g
 
     for allow in range(npat):
         for deny in range(npat):
             for want_a in (True, False):
                 for want_d in (True, False):
                     pool = [g for g in C10_GROUPS
-                            if (not allow or pat_match(allow, g) == want_a) and (not deny or pat_match(deny, g) == want_d)]
-                    if not pool or (not allow and not want_a) or (not deny and not want_d):
+                            if (not is_set(allow) or pat_match(allow, g) == want_a)
+                            and (not is_set(deny) or pat_match(deny, g) == want_d)]
+                    if not pool or (not is_set(allow) and not want_a) or (not is_set(deny) and not want_d):
                         continue
                     for kind in ("offset-v%d" % rng.choice([0, 1, 3]), rng.choice(["owners", "owners-v3"]), "clear"):
                         out.append(one(allow, deny, rng.choice(pool), kind))
